@@ -378,3 +378,90 @@ Definition merge_simple (srcs : list entries) (expl : entries) : Prop :=
   /\ (forall s, In s srcs -> forallb entry_plain s = true)
   /\ NoDup (keys expl)
   /\ forallb entry_plain expl = true.
+
+(* ------------------------------------------------------------------ *)
+(* the domain merge_simple for whole documents, as a decidable,        *)
+(* hereditary predicate (statements of C13_*_on)                       *)
+(* ------------------------------------------------------------------ *)
+Definition mem (k : str) (l : list str) : bool := existsb (str_eqb k) l.
+
+Fixpoint nodupb (l : list str) : bool :=
+  match l with
+  | [] => true
+  | k :: r => negb (mem k r) && nodupb r
+  end.
+
+Definition disjointb (a b : list str) : bool := forallb (fun k => negb (mem k b)) a.
+
+Fixpoint pairwise_disjointb (ls : list (list str)) : bool :=
+  match ls with
+  | [] => true
+  | a :: r => forallb (disjointb a) r && pairwise_disjointb r
+  end.
+
+(* the anchored maps a merge value names: `<<: *t` or `<<: [*t1, *t2, ...]` *)
+Definition alias_target (x : node) : option node := match x with Al t => Some t | _ => None end.
+
+Definition merge_targets (v : node) : option (list node) :=
+  match v with
+  | Al t => Some [t]
+  | Sq _ items => all_some (map alias_target items)
+  | _ => None
+  end.
+
+Definition is_mp (t : node) : bool := match t with Mp _ _ => true | _ => false end.
+
+(* the explicit entries written before the merge key, and the merge value *)
+Fixpoint before_merge (es : entries) : option (entries * node) :=
+  match es with
+  | [] => None
+  | (k, v) :: r =>
+      if is_merge k then Some ([], v)
+      else match before_merge r with Some (pre, mv) => Some ((k, v) :: pre, mv) | None => None end
+  end.
+
+Section DomStep.
+  Variable dm : node -> bool.                (* the children are in the domain *)
+  Variable rs : node -> option value.        (* the spec resolution of a child *)
+
+  Definition resolved_keys (t : node) : option (list str) :=
+    match rs t with Some (VM ves) => Some (map fst ves) | _ => None end.
+
+  (* a map is fine when: no key is written twice (so at most one <<); every
+     explicit value is fine; the merge value names anchored maps that are
+     fine; no key is provided by two maps of a merge list; and no explicit key
+     written BEFORE the merge key is also provided by a merged map (yq lets
+     the merged value win there: C13_explicit_before_merge_refuted) *)
+  Definition map_ok (es : entries) : bool :=
+    nodupb (keys es)
+    && forallb (fun kv => is_merge (fst kv) || dm (snd kv)) es
+    && match before_merge es with
+       | None => true
+       | Some (pre, mv) =>
+           match merge_targets mv with
+           | None => false
+           | Some ts =>
+               forallb is_mp ts && forallb dm ts
+               && match all_some (map resolved_keys ts) with
+                  | None => false
+                  | Some rks =>
+                      pairwise_disjointb rks
+                      && forallb (fun k => forallb (fun rk => negb (mem k rk)) rks) (keys pre)
+                  end
+           end
+       end.
+
+  Definition dom_step (t : node) : bool :=
+    match t with
+    | Sc _ _ => true
+    | Sq _ l => forallb dm l
+    | Al t' => dm t'
+    | Mp _ es => map_ok es
+    end.
+End DomStep.
+
+Fixpoint merge_simple_doc (fuel : nat) (t : node) : bool :=
+  match fuel with
+  | O => false
+  | S f => dom_step (merge_simple_doc f) (resolve f) t
+  end.
